@@ -309,6 +309,9 @@ class G:
             self.loops.pop()
             if r.random() < 0.6:
                 return [f"loop {name} {{"] + ["  " + x for x in brk] + ["}"]
+            # (no dead code after an unconditional finish: nmfu uses what follows a finish to decide
+            #  which byte triggers it, the reference finishes at once)
+            body = [l for l in body if not l.startswith("finish")]
             return [f"loop {name} {{"] + ["  " + x for x in body + brk] + ["}"]
         if k < 0.87:
             self.note("s_try")
@@ -329,7 +332,10 @@ class G:
                     acts.append(f"{r.choice(self.hooks)}();")
             if not acts:
                 return [self.match_expr() + ";"]
-            return ["foreach {", "  " + self.match_expr(False) + ";", "} do {"] + ["  " + a for a in acts] + ["}"]
+            inner = self.match_expr(False)
+            if r.random() < 0.25:
+                inner = "wait " + inner
+            return ["foreach {", "  " + inner + ";", "} do {"] + ["  " + a for a in acts] + ["}"]
         if self.outs:
             self.note("s_if")
             lines = [f"if {self.math(want_bool=True, no_last=True)} {{"] + ["  " + x for x in self.block(depth + 1, r.randint(1, 2))] + ["}"]
